@@ -162,6 +162,41 @@ def run_case(emit, cid, cs, rng, sample):
         if o2["exc"] is None:
             counts["boundary_returns"] += 1
             check_point(o2["w"], "return(budget=%s)" % b2)
+    # ---- infeasible warm start (what a warm_start refit gives after positive= was switched on, or a user's w_init):
+    # the solvers that apply the penalty's prox coordinate by coordinate visit every non-zero coefficient in their first
+    # epoch, so whatever they return after at least one epoch is feasible again — also on all-zero columns / groups,
+    # where only the penalty acts.  (Prox-Newton steps are damped averages of the start and the prox point and promise
+    # nothing from an infeasible start; they are not judged here.)
+    if case.solver_name in ("AndersonCD", "GroupBCD", "MultiTaskBCD", "GramCD") and cs["warm"] != "zero":
+        cs3 = dict(cs)
+        if rng.random() < 0.6 and cs["p"] > 3:
+            groupish = case.solver_name == "GroupBCD"
+            if groupish:
+                cs3["zero_group"] = str(rng.choice(["first", "middle", "last"]))
+            else:
+                cs3["mutate_X"] = str(rng.choice(["zero_col@first", "zero_col@middle", "zero_col@last", "zero_cols_many"]))
+        case3 = K.Case(cs3)
+        w3, _ = case3.start("dense")
+        k = len(w3) - int(case3.fit_intercept)
+        body = w3[:k]
+        body *= np.where(rng.random(body.shape) < 0.6, -1.0, 1.0)        # most coefficients on the wrong side
+        if case3.ref_pen.kind == "box":
+            body *= 3.0                                                    # some above C as well
+        wb, bb = case3.ref.split(w3)
+        x3 = np.ascontiguousarray(case3.Xd @ wb + bb)
+        for b3 in ([{b_it: 1, b_ep: 1}, {b_it: 1, b_ep: 7}, {b_it: 3, b_ep: 22}] if b_ep else [{b_it: 1}, {b_it: 7}, {b_it: 30}]):
+            o3 = case3.solve(np.ascontiguousarray(w3.copy()), x3.copy(), **b3)
+            if o3["exc"] is None:
+                counts["infeasible_start_returns"] = counts.get("infeasible_start_returns", 0) + 1
+                n_before = len(viols)
+                case_, case = case, case3
+                try:
+                    check_point(o3["w"], "return(infeasible start, null=%s, budget=%s)" % (
+                        cs3.get("mutate_X") or cs3.get("zero_group"), b3))
+                finally:
+                    case = case_
+                for v in viols[n_before:]:
+                    v.update(start="infeasible", null_columns=cs3.get("mutate_X") or cs3.get("zero_group"))
     rec = dict(base, nontrivial=bool(at_bound and inside), count=counts, hist={"warm": cs["warm"]})
     if viols:
         rec.update(status="violated", viol=viols[0],
